@@ -242,7 +242,7 @@ def run(ctx):
              "EncodingsOK GenExact hold (%.1fs)" % (cfg, mc.generated, mc.distinct, mc.depth, n_cases[0], mc.wall))
 
     mism_path = ctx.path("mismatches.ndjson")
-    rep = vlib.run_harness(binp, ["replay", cases_path, mism_path, ctx.seed], timeout=1500)
+    rep = vlib.run_harness(binp, ["replay", cases_path, mism_path, ctx.seed], timeout=1500, hang_path=mism_path + ".hang")
     ctx.note("replay: %d cases, %d runs, %d mismatching runs, number forms %s" %
              (rep["cases"], rep["runs"], rep["mismatches"], json.dumps(rep["number_forms_used"])))
     if rep["cases"] != n_cases[0] + len(planted_cases):
